@@ -156,7 +156,10 @@ JudgeVars(post, obs) ==
         THEN {Viol("C08", <<"is_stable() is true although a write to an observed variable is pending">>)} ELSE {})
 
 JudgeRets(post, obs) ==
-  IF obs.rets = post.retLog THEN {}
+  \* as multisets: calls made from handlers of different observers come in an unspecified order
+  IF \A x \in SeqSet(obs.rets) \cup SeqSet(post.retLog) :
+        Cardinality({i \in 1..Len(obs.rets) : obs.rets[i] = x}) = Cardinality({i \in 1..Len(post.retLog) : post.retLog[i] = x})
+  THEN {}
   ELSE {Viol(IF \E i \in 1..Len(post.retLog) : "v" \in DOMAIN post.retLog[i] THEN "C08" ELSE "C10",
              <<"returned", obs.rets, "expected", post.retLog>>)}
 
@@ -164,9 +167,10 @@ JudgeRets(post, obs) ==
 JudgeDlv(pre, obs) ==
   LET got == {[o |-> obs.dlv[i].o, t |-> obs.dlv[i].t, u |-> obs.dlv[i].u, v |-> obs.dlv[i].v] :
                 i \in 1..Len(obs.dlv)}
-      want == RefDlv(pre)
-  IN {Viol("C09", <<"unexpected delivery", d>>) : d \in got \ want}
-     \cup {Viol("C09", <<"missing delivery", d>>) : d \in want \ got}
+      wantMax == RefDlvMax(pre)
+      wantMin == RefDlvMin(pre)
+  IN {Viol("C09", <<"unexpected delivery", d>>) : d \in got \ wantMax}
+     \cup {Viol("C09", <<"missing delivery", d>>) : d \in wantMin \ got}
      \cup (IF Cardinality(got) # Len(obs.dlv) THEN {Viol("C09", <<"delivered twice", obs.dlv>>)} ELSE {})
      \cup {Viol("C09", <<"delivered value differs from observer read", obs.dlv[i]>>) :
             i \in {j \in 1..Len(obs.dlv) :
